@@ -1,8 +1,10 @@
-import NauyacaVerif.Srv.Url
+import NauyacaVerif.Url.Basic
 import NauyacaVerif.Srv.Render
 namespace Srv
 
 def maxRequest : Nat := 1024
+/-- `REQUEST_TIMEOUT` in 1/8 s -/
+def requestTimeout8 : Nat := 240
 
 /-- index of first CRLF -/
 def findCRLF : Bytes → Option Nat
@@ -100,10 +102,13 @@ structure St where
   allowed : Nat := 0   -- ghost: middleware `allow` results consumed
   size : Nat := 0
   content : Bytes := []
+  now : Nat := 0                 -- virtual clock in 1/8 s since `connection_made`
+  req : Option Bytes := none     -- ghost: the request line that was parsed (without CRLF)
 deriving Repr
 
 inductive Ev where
   | data (c : Bytes) | timeout | lost
+  | tick (dt : Nat)              -- the clock advances by `dt`/8 s and due timers run
   | mwAllow | mwDeny (line : Option (List Char)) | mwRaise
   | hDone (r : Resp) | hRaise | uDone (r : Resp) | uRaise
 deriving Repr
@@ -152,7 +157,7 @@ def rejection (line : Option (List Char)) : Resp :=
     | _ => dflt
 
 def onLine (cfg : Cfg) (s : St) (lineB rest : Bytes) : St :=
-  let s := { s with buf := rest }
+  let s := { s with buf := rest, req := some lineB }
   match decodeUtf8 lineB with
   | none => respondFixed s 59 "Invalid UTF-8 encoding"
   | some line =>
@@ -189,6 +194,9 @@ def step (cfg : Cfg) (s : St) : Ev → St
     | .awaitTitan => titanStep cfg s (s.buf ++ c)
     | _ => s
   | .timeout => if s.timer ∧ !s.lost then respondFixed s 40 "Request timeout" else s
+  | .tick dt =>
+    if s.timer ∧ !s.lost ∧ s.now + dt ≥ requestTimeout8
+    then respondFixed { s with now := s.now + dt } 40 "Request timeout" else { s with now := s.now + dt }
   | .lost => { s with lost := true, timer := false }
   | .mwAllow => match s.phase with
     | .mwG => route cfg { s with allowed := s.allowed + 1 }
